@@ -451,6 +451,35 @@ Proof.
     + split; [exact A|]. split; [now rewrite <- app_assoc|]. intros j. rewrite C. apply protect_one_alg.
 Qed.
 
+Lemma mem_In k l : mem k l = true <-> In k l.
+Proof.
+  unfold mem. rewrite existsb_exists. split.
+  - intros (x & Hx & E). apply list_N_eqb_spec in E. now subst.
+  - intros Hin. exists k. split; [exact Hin|apply list_N_eqb_refl].
+Qed.
+
+Lemma distinct_acc_In seen l k : In k (distinct_acc seen l) <-> In k l /\ ~ In k seen.
+Proof.
+  revert seen. induction l as [|x r IH]; intros seen; simpl; [tauto|].
+  destruct (mem x seen) eqn:Em.
+  - apply mem_In in Em. rewrite IH. split; [tauto|]. intros [[->|?] Hn]; [contradiction|tauto].
+  - assert (Hx : ~ In x seen) by (intros Hin; apply mem_In in Hin; congruence).
+    simpl. rewrite IH. simpl. split.
+    + intros [->|[A B]]; [tauto|]. split; [tauto|]. intros C. apply B. now right.
+    + intros [[->|A] B]; [now left|]. destruct (list_N_eqb x k) eqn:E.
+      * apply list_N_eqb_spec in E. now left.
+      * right. split; [exact A|]. intros [->|C]; [|contradiction]. rewrite list_N_eqb_refl in E. discriminate.
+Qed.
+
+Lemma distinct_In l k : In k (distinct l) <-> In k l.
+Proof. unfold distinct. rewrite distinct_acc_In. simpl. tauto. Qed.
+
+Lemma M_pending_incl E st si dn ks ks' : incl ks ks' -> M E st si dn ks -> M E st si dn ks'.
+Proof.
+  intros Hi HM j s k o Hs Ho Hc. destruct (HM j s k o Hs Ho Hc) as [?|[?|[A B]]]; [now left|now (right; left)|].
+  right. right. split; [exact A|now apply Hi].
+Qed.
+
 Lemma fold_protect_map {A} (f : A -> oid) st si (items : list A) :
   fold_left (fun s it => protect_one s si (f it)) items st =
   fold_left (fun s k => protect_one s si k) (map f items) st.
@@ -465,6 +494,14 @@ Proof.
   intros HM. apply M_done in HM. eapply M_weaken; [|exact HM].
   intros j k [A B]. split; [exact A|]. intros [-> Hin]. apply B. split; [reflexivity|].
   rewrite app_nil_r. now apply in_rev in Hin.
+Qed.
+
+Lemma M_done_distinct E st si l :
+  M E st si (rev (distinct l) ++ []) [] -> M (lminus E si l) st O [] [].
+Proof.
+  intros HM. apply M_done in HM. eapply M_weaken; [|exact HM].
+  intros j k [A B]. split; [exact A|]. intros [-> Hin]. apply B. split; [reflexivity|].
+  rewrite app_nil_r. rewrite <- in_rev. now apply distinct_In.
 Qed.
 
 Lemma add_copy_ok E st si items ce :
@@ -494,9 +531,11 @@ Proof.
         apply in_map. apply Hl. now left. }
   destruct (Hgen to_add st Hsub (fun j => eq_refl) HN
               (M_pending E st si _ (M_nil_any E st O si HM))) as (A & B & C).
-  rewrite fold_protect_map.
-  destruct (protect_fold E _ si (map fst items) [] A B) as (A' & B' & C').
-  split; [exact A'|]. split; [now apply M_done_lminus|]. intros j. rewrite C'. apply C.
+  assert (B0 : M E (fold_left (fun s it => put_new s si (fst it) (snd it)) to_add st) si []
+                 (distinct (map fst items))).
+  { eapply M_pending_incl; [|exact B]. intros k Hk. now apply distinct_In. }
+  destruct (protect_fold E _ si (distinct (map fst items)) [] A B0) as (A' & B' & C').
+  split; [exact A'|]. split; [now apply M_done_distinct|]. intros j. rewrite C'. apply C.
 Qed.
 
 Lemma add_link_ok E st si (items : list (oid * obj)) hard :
@@ -546,9 +585,12 @@ Proof.
         * rewrite put_new_eq. now apply put_obj_M. }
   destruct (Hgen to_add st Hsub (fun j => eq_refl) HN
               (M_pending E st si _ (M_nil_any E st O si HM))) as (A & B & C).
-  rewrite fold_protect_map.
-  destruct (protect_fold E _ si (map fst items) [] A B) as (A' & B' & C').
-  split; [exact A'|]. split; [now apply M_done_lminus|]. intros j. rewrite C'. apply C.
+  match type of B with M E ?stx si [] _ =>
+    assert (B0 : M E stx si [] (distinct (map fst items)))
+      by (eapply M_pending_incl; [|exact B]; intros k Hk; now apply distinct_In);
+    destruct (protect_fold E stx si (distinct (map fst items)) [] A B0) as (A' & B' & C')
+  end.
+  split; [exact A'|]. split; [now apply M_done_distinct|]. intros j. rewrite C'. apply C.
 Qed.
 
 Lemma fold_verify_map {A} (f : A -> oid) st si (items : list A) :
@@ -579,9 +621,12 @@ Proof.
         apply in_map. apply Hl. now left. }
   destruct (Hgen items st (incl_refl _) (fun j => eq_refl) HN
               (M_pending E st si _ (M_nil_any E st O si HM))) as (A & B & C).
-  rewrite fold_verify_map.
-  destruct (verify_fold E _ si (map fst items) [] A B) as (A' & B' & C').
-  split; [exact A'|]. split; [now apply M_done_lminus|]. intros j. rewrite C'. apply C.
+  match type of B with M E ?stx si [] _ =>
+    assert (B0 : M E stx si [] (distinct (map fst items)))
+      by (eapply M_pending_incl; [|exact B]; intros k Hk; now apply distinct_In);
+    destruct (verify_fold E stx si (distinct (map fst items)) [] A B0) as (A' & B' & C')
+  end.
+  split; [exact A'|]. split; [now apply M_done_distinct|]. intros j. rewrite C'. apply C.
 Qed.
 
 (* the three facts every operation preserves, bundled *)
@@ -979,7 +1024,9 @@ Proof.
             StemP (fold_left (fun s k => verify_one H s j k) ks st0) j []).
   { induction ks as [|k r IH]; intros st0 HS0; simpl; [exact HS0|].
     apply IH. now apply verify_one_Stem. }
-  rewrite fold_verify_map. apply Hver. apply Hput; [apply incl_refl|].
+  apply Hver. assert (Hp := Hput items st (incl_refl _)).
+  intros s0 k0 o0 Hs0 Ho0. destruct (Hp) with (s := s0) (k := k0) (o := o0) as [?|Hin]; auto.
+  2:{ right. now apply distinct_In. }
   intros s k o Hs Ho. destruct (HS s k o Hs Ho) as [?|[]]. now left.
 Qed.
 
